@@ -164,7 +164,7 @@ PROPS = {
         'level_text': 'Full proof: the parser commutes with Q->R, so kernel-decided table facts (projective row zero, +-I only for oblique tables, diag(+-1,+-1) only for rectangular tables, closure mod lattice) hold of the real matrices; for every table, every cell of its family (cos angle = 0 for rectangular), every site and every group operation g, X -> L_g X + C t_g is orthogonal and maps the placement of copy k onto that of a copy k\' translated by a lattice vector (orientation, handedness, position); one copy per operation; the family constraint depends on the angle only and holds initially; preserved by optimisation through C08.',
         'level_note': 'Trusted: Lean kernel + 3 axioms; translator for tables; model of site/cell positions tied by bit-exact site/state families.',
         'technique': 'Lean 4 proof over R with kernel-decided table facts transported through a parser-cast theorem + source-to-Lean translation of the function bodies with tie theorems + differential correspondence',
-        'theorems': ['Proofs.C04', 'Proofs.TieWrap', 'Proofs.TieSite', 'Proofs.TieImages'],
+        'theorems': ['Proofs.C04', 'Proofs.TieWrap', 'Proofs.TieSite', 'Proofs.TieImages', 'Proofs.SrcC04'],
         'families': [('site', 2000, 40000), ('state', 2000, 30000), ('tables', 14, 14)],
         'search': (10, 240),
         'rule': 'search: on real states (both kinds, all groups, also after optimisation) every reference group operation in Cartesian form must be an isometry of the current cell and map the set of real cartesian_positions() onto itself modulo the lattice (1e-9)',
@@ -244,7 +244,7 @@ PROPS = {
         'level_text': 'Full proof for an ARBITRARY carrier (no algebraic law used, so it holds verbatim at f64, bit for bit): after every step the heap is exactly the proposal (accepted) or exactly the heap before it (rejected); a proposal differs from its parent in at most one cell; events chain; the returned heap is the last accepted proposal (the input if none), also on the convergence exit; the tracked score is that proposal\'s score; for parameter-only scores it is the score of the returned state.',
         'level_note': 'Trusted: Lean kernel + propext/Quot.sound; heap model of SharedValue/StandardBasis tied by the bit-exact basis family (set/reset/sample sequences incl. shared cells) and whole-run opt/optc families.',
         'technique': 'Lean 4 induction over optimiser runs for an arbitrary scalar carrier + source-to-Lean translation of the function bodies with tie theorems + bit-exact differential correspondence',
-        'theorems': ['Proofs.C06', 'Proofs.TieBasis', 'Proofs.TieInnerStep'],
+        'theorems': ['Proofs.C06', 'Proofs.TieBasis', 'Proofs.TieInnerStep', 'Proofs.SrcC06'],
         'families': [('basis', 1500, 40000), ('opt', 1500, 30000)],
         'search': (10, 240),
         'rule': 'basis: random set/reset/get/sample/setsampled sequences on up to 5 handles over up to 4 cells (shared cells included); opt/optc as for C05; non-trivial = run with >= 5 score calls / any basis sequence; search: exact-restore, single-parameter and result-is-last-accepted monitors on recorded real histories',
@@ -266,7 +266,7 @@ PROPS = {
         'level_text': 'Proof over R: clamp lands in range; run invariant — if every handled parameter starts inside its range then every proposal and the result keep every handled parameter inside its range and every unhandled parameter unchanged, for any history; generated degrees of freedom and bounds (regenerated from cell.rs/site.rs each run) equal the declared ones (length [0.01,cur], ratio [0.1,cur], angle [pi/6,pi/2] only for oblique cells, x,y in [-1/2,1/2], orientation [0,2pi]); handle addresses distinct; angle unhandled unless Monoclinic; chained stages re-derive contained ranges; no degenerate cell inside the box; every table with any hard shape whose components lie within its positive enclosing radius starts from a state that passes the overlap check with a positive finite score (kernel-decided separation of the initial copies per table, transported to R), and every LJ initial state reports a score. Partial: finiteness of the returned score along a run rests on the score functions (C02/C03) and the NaN clause of C07.',
         'level_note': 'Trusted: translator pvtx.py for bounds (validated by cell dof / site basis / state basis requests observed behaviourally on the crate); Lean kernel + 3 axioms.',
         'technique': 'Lean 4 invariant proof + kernel-decided declared-constants obligations over translator output + source-to-Lean translation of the function bodies with tie theorems + differential correspondence',
-        'theorems': ['Proofs.C08', 'Proofs.C08Init', 'Proofs.TieBasis', 'Proofs.DeclBasis', 'Proofs.TieAccept'],
+        'theorems': ['Proofs.C08', 'Proofs.C08Init', 'Proofs.TieBasis', 'Proofs.DeclBasis', 'Proofs.TieAccept', 'Proofs.SrcC08'],
         'families': [('state', 1500, 30000), ('cell', 1500, 20000), ('site', 1000, 20000), ('opt', 1000, 20000)],
         'search': (12, 300),
         'rule': 'state: 7 groups x shapes x potentials, ops score/params/basis/label/relpos/cartpos incl. from_group initial states; search: range/family monitor on every recorded proposal, chains of 1..4 stages on real states, from_group validity for every group x shape family',
